@@ -10,6 +10,7 @@ import TF.Proofs.XFieldK
 import TF.Proofs.XFieldCyc
 import TF.Proofs.GenBridgeBField
 import TF.Proofs.GenBridgePacc
+import TF.Proofs.GenBridgeField
 import TF.Proofs.GenBridgeBFieldOk
 /-!
 # C01 — base and extension field arithmetic is exact and canonical
@@ -711,5 +712,100 @@ example : TF.XK.cycLen 4 none = 4 ∧ TF.XK.cycLen 4 (some 3) = 3 ∧ TF.XK.cycL
     XF.cyclicGroup 10 (XF.lift (bfe_new 281474976710656)) (some 3) =
       some [XF.one, XF.lift (bfe_new 281474976710656), XF.lift (bfe_new 18446744069414584320)] := by
   refine ⟨by decide, by decide, by decide, by decide, by decide +kernel⟩
+
+end TF.C01
+
+/-! ## `FiniteField::batch_inversion` regenerated from source over an abstract field (P10)
+
+The provided trait method `FiniteField::batch_inversion` is regenerated from the text of `traits.rs` on every run
+(`TF/Gen/FieldLoops.lean`, P10 block of `tools/rs2lean_bt4.py`) with `Self` an **opaque type** and the field operations it
+uses — `Self::zero()`, `Self::one()`, `*` / `*=`, `is_zero()`, `inverse()` with its panic flag — as parameters.
+`outcome ok v = if ok then some v else none` reads the pair (`_ok` flag, value) in the hand model's convention (`none` =
+the `assert!` on a zero element fails, `inverse()` panics, or an index is out of range).  Proofs:
+`TF/Proofs/GenBridgeField.lean`. -/
+namespace TF.C01
+open TF.Gen TF.BF TF.Model TF.GenBridge.Field
+open TF.Gen.Loops (ff_batch_inversion ff_batch_inversion_ok)
+
+/-- **regenerated `batch_inversion` = the generic hand model**, for every element type, every record of field operations
+    (not even assumed to be a field), every input vector: same vector of results, panic exactly when the model's `none`.
+    `inverse : D → Option D` is the partial inverse (`none` = `inverse()` panics); `d0` is never read when the flag holds -/
+theorem gen_batch_inversion_eq_model {D : Type} (zero one : D) (mul : D → D → D) (isZero : D → Bool)
+    (inverse : D → Option D) (d0 : D) (input : List D) :
+    outcome (ff_batch_inversion_ok zero one mul isZero (fun x => (inverse x).getD d0) (fun x => (inverse x).isSome) d0 input)
+        (ff_batch_inversion zero one mul isZero (fun x => (inverse x).getD d0) (fun x => (inverse x).isSome) d0 input)
+      = batchInversionG mul isZero inverse one input :=
+  gen_batch_inversion_eq zero one mul isZero d0 inverse input
+/-- non-vacuity on the rationals-free toy record `(Nat, *, · == 0, x ↦ some x)`: scratch products `[1, 2, 6]`, then back -/
+example : ff_batch_inversion 0 1 (· * ·) (· == 0) (fun x => x) (fun _ => true) 7 [2, 3, 4] = [288, 192, 144] ∧
+    ff_batch_inversion_ok 0 1 (· * ·) (· == 0) (fun x => x) (fun _ => true) 7 [2, 3, 4] = true ∧
+    ff_batch_inversion_ok 0 1 (· * ·) (· == 0) (fun x => x) (fun _ => true) 7 [2, 0, 4] = false ∧
+    ff_batch_inversion 0 1 (· * ·) (· == 0) (fun x => x) (fun _ => true) 7 ([] : List Nat) = [] := by decide
+
+/-- **transfer** of `batch_inversion_exact` (base field) and `xfe_batch_inversion_exact` (extension field) to the code as
+    it is in the source now, instantiated with the word-level operations of the two fields: any vector of non-zero
+    elements is mapped without panic to the vector of inverses; a vector containing zero panics -/
+theorem gen_batch_inversion_transfer :
+    (∀ xs : List Nat,
+      let ok := ff_batch_inversion_ok BF.zero BF.one bfe_mul (fun x => x == BF.zero) (fun x => (BF.inverse x).getD 0)
+        (fun x => (BF.inverse x).isSome) 0 xs
+      let rs := ff_batch_inversion BF.zero BF.one bfe_mul (fun x => x == BF.zero) (fun x => (BF.inverse x).getD 0)
+        (fun x => (BF.inverse x).isSome) 0 xs
+      ((∀ x ∈ xs, x < P ∧ x ≠ BF.zero) →
+        ok = true ∧ (∀ r ∈ rs, r < P) ∧ rs.map toF = xs.map (fun x => (toF x)⁻¹)) ∧
+      (BF.zero ∈ xs → ok = false)) ∧
+    (∀ xs : List XF.X3,
+      let ok := ff_batch_inversion_ok XF.zero XF.one XF.mul XF.isZero (fun x => (XF.inverse x).getD XF.zero)
+        (fun x => (XF.inverse x).isSome) XF.zero xs
+      let rs := ff_batch_inversion XF.zero XF.one XF.mul XF.isZero (fun x => (XF.inverse x).getD XF.zero)
+        (fun x => (XF.inverse x).isSome) XF.zero xs
+      ((∀ x ∈ xs, TF.XFp.canon3 x ∧ x ≠ XF.zero) →
+        ok = true ∧ rs.length = xs.length ∧
+          ∀ i (h1 : i < rs.length) (h2 : i < xs.length), TF.XFp.canon3 rs[i] ∧ XF.mul rs[i] xs[i] = XF.one ∧
+            XF.inverse xs[i] = some rs[i]) ∧
+      (XF.zero ∈ xs → ok = false)) := by
+  constructor
+  · intro xs
+    have hg := gen_batch_inversion_eq_model BF.zero BF.one bfe_mul (fun x => x == BF.zero) BF.inverse 0 xs
+    rw [← bf_batchInversion_eq] at hg
+    refine ⟨fun hx => ?_, fun hz => ?_⟩
+    · obtain ⟨rs, h1, h2, h3⟩ := (batch_inversion_exact xs).1 hx
+      rw [h1] at hg
+      unfold outcome at hg
+      split at hg
+      · rename_i hok
+        cases hg
+        exact ⟨hok, h2, h3⟩
+      · cases hg
+    · have h1 := (batch_inversion_exact xs).2 hz
+      rw [h1] at hg
+      unfold outcome at hg
+      split at hg
+      · cases hg
+      · rename_i hok
+        simpa using hok
+  · intro xs
+    have hg := gen_batch_inversion_eq_model XF.zero XF.one XF.mul XF.isZero XF.inverse XF.zero xs
+    have hm : batchInversionG XF.mul XF.isZero XF.inverse XF.one xs = XF.batchInversion xs := rfl
+    rw [hm] at hg
+    refine ⟨fun hx => ?_, fun hz => ?_⟩
+    · obtain ⟨rs, h1, h2, h3⟩ := (xfe_batch_inversion_exact xs).1 hx
+      rw [h1] at hg
+      unfold outcome at hg
+      split at hg
+      · rename_i hok
+        cases hg
+        exact ⟨hok, h2, fun i a b => ⟨(h3 i a b).1, (h3 i a b).2.1, (h3 i a b).2.2.2⟩⟩
+      · cases hg
+    · have h1 := (xfe_batch_inversion_exact xs).2.1 hz
+      rw [h1] at hg
+      unfold outcome at hg
+      split at hg
+      · cases hg
+      · rename_i hok
+        simpa using hok
+example : (∀ x ∈ [BF.one, bfe_new 5], x < P ∧ x ≠ BF.zero) ∧
+    ff_batch_inversion_ok BF.zero BF.one bfe_mul (fun x => x == BF.zero) (fun x => (BF.inverse x).getD 0)
+      (fun x => (BF.inverse x).isSome) 0 [BF.one, bfe_new 5] = true := by decide +kernel
 
 end TF.C01
